@@ -336,9 +336,19 @@ pub fn dict_text(descr: &str, fortran: bool, shape: &[usize], sp: &Spelling) -> 
 /// A file laid out as numpy lays it out: magic, version, header length, dict, space padding to a
 /// multiple of 64 ending in '\n', data.
 pub fn synth(version: u8, dict: &str, data: &[u8]) -> Vec<u8> {
+    synth_aligned(version, dict, data, 64)
+}
+
+/// As `synth`, with the data starting at a multiple of `align` bytes that is not a multiple of 64
+/// (16: what numpy before 1.14 and other writers of format 1.0 produce; 1: no padding at all beyond
+/// one blank, which the format allows a reader to meet).
+pub fn synth_aligned(version: u8, dict: &str, data: &[u8], align: usize) -> Vec<u8> {
     let pre = if version == 1 { 10 } else { 12 };
     let unpadded = pre + dict.len() + 1;
-    let pad = (64 - unpadded % 64) % 64;
+    let mut pad = (align - unpadded % align) % align;
+    if align < 64 && (unpadded + pad) % 64 == 0 {
+        pad += align.max(3);
+    }
     let header_len = dict.len() + pad + 1;
     let mut out = b"\x93NUMPY".to_vec();
     out.push(version);
